@@ -9,6 +9,7 @@ import Driver.InstSat
 import Driver.JR
 import Driver.Price
 import Driver.PriceMIP
+import Driver.PriceMIPRelax
 import Driver.Multi
 import Driver.Containers
 import Driver.Effects
@@ -45,6 +46,8 @@ def dispatch (line : String) : String :=
     | "pricerelax" => cmdPriceRelax a
     | "pricemip" => cmdPriceMIP a
     | "pricemipsat" => cmdPriceMIPSat a
+    | "pricemiprelax" => cmdPriceMIPRelax a
+    | "pricemiprelaxsat" => cmdPriceMIPRelaxSat a
     | "multi" => cmdMulti a
     | "ops" => cmdOps a
     | "effects" => cmdEffects a
